@@ -251,6 +251,38 @@ fn main() {
     cov.insert("exhaustive".into(), json!(true));
     cov.insert("bounds".into(), json!(cfgs));
     cov.insert("samples".into(), json!(samples));
+    // the same relation at the level of real event logs: the log engine
+    // compares every log it reaches (after append / patch / rewind / clear
+    // / replace-all sequences, both backends, repeated events) with head
+    // proofs of the model sequence, its proper prefix and an extension
+    if std::env::var("VKIT_FRAGMENT").is_err() {
+        let wd = vkit::fsutil::WorkDir::new("treex");
+        let frag = wd.path().join("logx-fragment.json");
+        let logx = std::env::current_exe().unwrap().with_file_name("logx");
+        let st = std::process::Command::new(&logx)
+            .args(["--prop", "C08", "--tier", args.tier.as_str()])
+            .env("VKIT_FRAGMENT", &frag)
+            .env_remove("VKIT_WORKER")
+            .env_remove("VKIT_INPUT")
+            .stdout(std::process::Stdio::null())
+            .status();
+        match st {
+            Ok(s) if s.success() => {
+                let v: Value = serde_json::from_slice(&std::fs::read(&frag).unwrap_or_default()).unwrap_or(json!({}));
+                if let Some(fs) = v["failures"].as_array() {
+                    for f in fs {
+                        run.fail_n(f["sig"].as_str().unwrap(), f["what"].as_str().unwrap(), f["witness"].clone(), f["count"].as_u64().unwrap_or(1));
+                    }
+                }
+                let c = &v["evidence"]["coverage"];
+                if c["transitions"].as_u64().unwrap_or(0) == 0 {
+                    run.machinery("vacuous: the log engine explored nothing");
+                }
+                cov.insert("log_level_compare_(log_engine)".into(), json!({"log_states": c["states"], "log_transitions": c["transitions"], "depth": c["depth"], "relations_checked_per_log_and_transition": ["same sequence -> Equal", "proper prefix -> Contains", "longer sequence -> Unknown"]}));
+            }
+            other => run.machinery(format!("logx fragment failed: {:?}", other)),
+        }
+    }
     std::process::exit(run.finish(cov));
 }
 
